@@ -2,7 +2,7 @@ def DOMLOOPS(n):
     """sibling walks of the real DOM helpers: <= n-1 children per element (checked by the unwinding assertions)"""
     return {r'^_ZN5QXmpp7Private17firstChildElementERK11QDomElement11QStringView': n, r'^_ZN5QXmpp7Private18nextSiblingElementERK11QDomElement11QStringView': n}
 def I(name, entry=None, dom=8, **kw):
-    d = dict(loop_bounds=DOMLOOPS(dom), name=name, entry=entry or 'h_' + name, unwind=10, timeout_s=300, mem_gb=6, safety_is_property=True, object_bits=12, cdefs={'VP_UTF8_LATIN1': 1}, bound=''); d.update(kw); return d
+    d = dict(loop_bounds=DOMLOOPS(dom), name=name, entry=entry or 'h_' + name, unwind=10, timeout_s=300, mem_gb=6, safety_is_property=True, object_bits=12, cdefs={'VP_UTF8_LATIN1': 1}, bound='arbitrary bounded tree over the vocabulary of the parser under test (SPEC bounds)'); d.update(kw); return d
 def DOMLOOPS(n):
     """sibling walks of the real DOM helpers: <= n-1 children per element (checked by the unwinding assertions)"""
     return {r'^_ZN5QXmpp7Private17firstChildElementERK11QDomElement11QStringView': n, r'^_ZN5QXmpp7Private18nextSiblingElementERK11QDomElement11QStringView': n}
@@ -10,31 +10,60 @@ SM_TUS = ['src/base/QXmppStreamManagement.cpp', 'src/base/QXmppUtils.cpp', 'src/
 SASL_TUS = ['src/base/QXmppSasl.cpp', 'src/base/QXmppStreamManagement.cpp', 'src/base/QXmppUtils.cpp', 'src/base/QXmppStanza.cpp']
 # instance -> bound of the sibling walks (max children of the input tree and of the serialized tree + 2)
 SASL = dict(sasl_auth=4, sasl_challenge=4, sasl_response=4, sasl_success=4, sasl_failure=5, sasl2_challenge=4, sasl2_response=4, sasl2_failure=5, sasl2_abort=4, sasl2_continue=5, sasl2_success=8,
-            sasl2_feature=6, sasl2_authenticate=8, bind2_feature=5, bind2_request=6, bind2_bound=5, fast_feature=5, fast_token_request=4, fast_request=4, sasl2_success_safe=8)
+            sasl2_feature=6, sasl2_authenticate=8, bind2_feature=5, bind2_request=6, bind2_bound=5, fast_feature=5, fast_token_request=4, fast_request=4, sasl2_success_safe=8, sasl2_continue_safe=5, sasl2_feature_safe=6)
 STANZA_TUS = ['src/base/QXmppStanza.cpp', 'src/base/QXmppIq.cpp', 'src/base/QXmppBindIq.cpp', 'src/base/QXmppPingIq.cpp', 'src/base/QXmppStreamFeatures.cpp', 'src/base/QXmppSasl.cpp',
               'src/base/QXmppStreamManagement.cpp', 'src/base/QXmppUtils.cpp', 'src/base/Stream.cpp', 'src/base/QXmppNonza.cpp']
+# two passes through these three give no verdict (the serialized tree has up to 6 optional children at symbolic positions): first half in the quick tier (*_safe), the
+# fix point of these types follows from C01's field-wise round trip P(W(x)) == x; Sasl2::StreamFeature (QList<QString>) runs out of memory even in the first half
+SASL_KW = dict(sasl2_success=dict(tiers=('manual',)), sasl2_continue=dict(tiers=('manual',)), sasl2_feature=dict(tiers=('manual',)), sasl2_feature_safe=dict(tiers=('manual',)),
+               sasl2_authenticate=dict(tiers=('thorough',), timeout_s=600, mem_gb=8), sasl2_continue_safe=dict(mem_gb=8), sasl2_success_safe=dict(mem_gb=8))
 MODELS = ['qt_core.c', 'qt_list.c', 'c02_dom.c', 'c02_env.c']
 def iqcase(n1, *children):
-    """children: (tag, ns[, (gtag, gns)]) with indices into the vocabulary of h_stanza.cpp: tags iq,error,bind,ping,text,item-not-found,zz; ns '',client,stanzas,bind,x:y"""
+    """children: (tag, ns[, (gtag, gns)]) with indices into the vocabulary of h_stanza.cpp: tags iq,error,bind,ping,text,item-not-found,zz,jid; ns '',client,stanzas,bind,ping"""
     m = n1
     for i, ch in enumerate(children):
-        b = 2 + 11 * i; m |= ch[0] << b; m |= ch[1] << (b + 3)
-        if len(ch) > 2: m |= 1 << (b + 5); m |= ch[2][0] << (b + 6); m |= ch[2][1] << (b + 9)
+        b = 2 + 13 * i; m |= ch[0] << b; m |= ch[1] << (b + 3)
+        if len(ch) > 2: m |= 1 << (b + 6); m |= ch[2][0] << (b + 7); m |= ch[2][1] << (b + 10)
     return m
-T_IQ, T_ERROR, T_BIND, T_PING, T_TEXT, T_INF, T_ZZ = range(7); N_NONE, N_CLIENT, N_STANZA, N_BIND, N_XY = range(5)
-IQ_SHAPES = dict(empty=iqcase(0), error_only=iqcase(1, (T_ERROR, N_NONE)), error_cond=iqcase(1, (T_ERROR, N_NONE, (T_INF, N_STANZA))), bind=iqcase(1, (T_BIND, N_BIND, (T_ZZ, N_NONE))),
-                 ext_error=iqcase(2, (T_ZZ, N_XY), (T_ERROR, N_NONE, (T_TEXT, N_STANZA))), error_error=iqcase(2, (T_ERROR, N_NONE, (T_INF, N_STANZA)), (T_ERROR, N_CLIENT)),
-                 ping_ext=iqcase(2, (T_PING, N_XY, (T_ZZ, N_XY)), (T_ZZ, N_NONE, (T_ERROR, N_NONE))))
-IQ_CASES = [I('iq_' + k, entry='h_iq', dom=6, cdefs={'VP_UTF8_LATIN1': 1, 'VP_CASE': v}, bound='shape %s (VP_CASE=%d); attribute presence/values and text symbolic' % (k, v)) for k, v in IQ_SHAPES.items()]
+T_IQ, T_ERROR, T_BIND, T_PING, T_TEXT, T_INF, T_ZZ, T_JID = range(8); N_NONE, N_CLIENT, N_STANZA, N_BIND, N_PING = range(5)
+IQ_SHAPES = dict(empty=iqcase(0), bind=iqcase(1, (T_BIND, N_BIND, (T_ZZ, N_NONE))), two_ext=iqcase(2, (T_PING, N_PING, (T_ZZ, N_NONE)), (T_ZZ, N_CLIENT, (T_TEXT, N_STANZA))),
+                 bind_dup=iqcase(2, (T_BIND, N_BIND, (T_JID, N_NONE)), (T_BIND, N_NONE)))
+# an <error/> child: QXmppStanza::parse + Error::parse inside the stanza gave no verdict in 10 min even with a concrete shape; Error::parse alone is the instance `error`
+IQ_ERR_SHAPES = dict(error_cond=iqcase(1, (T_ERROR, N_NONE, (T_INF, N_STANZA))), ext_error=iqcase(2, (T_ZZ, N_PING), (T_ERROR, N_NONE, (T_TEXT, N_STANZA))))
+def IQI(prefix, entry, shapes, **kw):
+    return [I(prefix + k, entry=entry, dom=6, cdefs={'VP_UTF8_LATIN1': 1, 'VP_CASE': v}, bound='shape %s (VP_CASE=%d); attribute presence/values and text symbolic' % (k, v), **kw) for k, v in shapes.items()]
+IQ_CASES = (IQI('iq_', 'h_iq', IQ_SHAPES) + IQI('iq_', 'h_iq', IQ_ERR_SHAPES, tiers=('manual',))
+            + IQI('bindiq_', 'h_bind_iq', dict(jid=iqcase(1, (T_BIND, N_BIND, (T_JID, N_NONE))), bind_ext=iqcase(2, (T_BIND, N_BIND), (T_ZZ, N_CLIENT, (T_BIND, N_BIND)))))
+            + IQI('pingiq_', 'h_ping_iq', dict(ping=iqcase(1, (T_PING, N_PING)), ping_ext=iqcase(2, (T_PING, N_PING, (T_ZZ, N_NONE)), (T_BIND, N_BIND)))))
 SPEC = dict(
     property='C02',
     groups=[
         dict(name='sm', harness='h_sm.cpp', tus=SM_TUS, models=MODELS, loop_bounds=DOMLOOPS(5),
              instances=[I(e) for e in ['sm_enable', 'sm_enabled', 'sm_resume', 'sm_resumed', 'sm_ack', 'sm_request', 'sm_failed', 'sm_failed_safe']]),
         dict(name='sasl', harness='h_sasl.cpp', tus=SASL_TUS, models=MODELS, loop_bounds=DOMLOOPS(8),
-             instances=[I(e, dom=SASL[e]) for e in SASL]),
+             instances=[I(e, dom=SASL[e], **SASL_KW.get(e, {})) for e in SASL]),
         dict(name='stanza', harness='h_stanza.cpp', tus=STANZA_TUS, models=MODELS,
-             instances=[I('error', dom=6)] + IQ_CASES),
+             instances=[I('error', dom=6, timeout_s=600, mem_gb=8, tiers=('thorough',)), I('error_safe', dom=6)] + IQ_CASES),
+        dict(name='stream', harness='h_stream.cpp', tus=STANZA_TUS, models=MODELS,
+             instances=[I('features', dom=15, cdefs={'VP_UTF8_LATIN1': 1, 'DOM_MAXCH': 14}, mem_gb=8, timeout_s=600, tiers=('manual',)), I('stream_error', dom=5, timeout_s=600, tiers=('manual',))]),
     ],
-    bounds=[], assumptions=[], outside=[],
+    bounds=['input = ARBITRARY bounded DOM tree: root + <= 3 children + <= 2 grandchildren each (per instance: see C02Tree<N1,N2> in the harness; attribute-only parsers use root + 1 child), every child count symbolic 0..max',
+            'every element name / namespace = symbolic index into the vocabulary of the parser under test (all names and namespaces the parser compares against + foreign and near-miss names + "no own namespace = inherit")',
+            'every attribute of the vocabulary independently present or absent on EVERY element (names concrete, presence and value symbolic)',
+            'every attribute value and every element text = one of: 0..3 arbitrary UTF-16 units (covers "", "0", "1", "-1", markup characters, non-ASCII), an ABSTRACT NUMBER of arbitrary sign and 64-bit magnitude (covers 0, 1, -1, 4294967296, 2^64-1 as numeric strings), or an enum-like string of the parser (true, false, cancel, result, ...)',
+            'two passes: t -> P -> x -> toXml -> T1 -> P -> y -> toXml -> T2, assert P accepts T1 and T1 == T2 (element order significant); *_safe instances: first half only (P(t) safe, toXml(x) one complete well-formed element)',
+            'generic QXmppIq / QXmppBindIq / QXmppPingIq: shape (child count <= 2, one optional grandchild each, their tags/namespaces) concrete per instance (VP_CASE), attribute presence/values and text symbolic',
+            'real-code loops: unwind 10, sibling walks of firstChildElement/nextSiblingElement bounded per instance (max children + 2); all bounds are checked by unwinding assertions'],
+    assumptions=['Qt is environment: QDomElement/QXmlStreamWriter are the shared bounded tree model (serialize -> parse never goes through text: Qt tokenising/escaping trusted); numeric strings are abstract (toUInt... of non-numeric text returns an arbitrary (value, ok)); base64 is an abstract tagging, base64 decoding of untagged text gives arbitrary <= 3 bytes or "invalid"',
+                 'harness-local DOM fork c02_dom.c: getters of a null element / absent attribute return an empty string that is not isNull(); the tree does no reference counting (model blocks are never recycled)',
+                 'harness-local string rules c02_env.c: every QString is a model block (QStringLiteral / operator""_s data is copied into one on construction, QString() is the static empty block); QStringView::toString() copies; operator==(QStringView,QStringView) compares content ids against literals (injectivity of the id hash on all literals of the program incl. the vocabularies is checked offline by the driver on every run); model obligations (MODEL:) assert that only whole-string views are compared/copied',
+                 'std::vector<QString> growth is modelled (fixed capacity 8, typed slots); QDateTime is an opaque instant with fromString(toString(t)) == t; QXmppElement (not an anchored file) is cut at class level: it keeps the DOM node and toXml() writes tag, xmlns if different from the parent, NON-EMPTY attributes, text and children',
+                 'operator""_s literals are evaluated once before the symbolic part (their function-local static would otherwise be initialised under a symbolic path condition); this only affects cost',
+                 'a first-half instance plus C01 (field-wise round trip P(W(x)) == x for arbitrary objects x of the same type) implies the fix point for Sasl2::Success / Sasl2::Continue'],
+    outside=['generic QXmppIq (and subclasses) with an <error/> child: QXmppStanza::parse + Error::parse inside the stanza gave no verdict within 15 min even with a concrete shape (instances iq_error_cond / iq_ext_error are tier "manual"); the duplicated-<error/> defect is demonstrated by a hand-made native replay of the generated program (d3_iq_error_replay.json), not by the solver',
+             'two passes for Sasl2::Success, Sasl2::Continue, Sasl2::StreamFeature (no verdict: the serialized tree has many optional children at symbolic positions); Sasl2::StreamFeature and QXmppStreamFeatures::parse even in the first half (QList<QString> + 12 optional children: out of memory / no verdict in 12 min); StreamErrorElement::fromDom (std::variant<..., QXmppError{std::any}>: no verdict in 12 min) - instances kept as tier "manual"',
+             'QXmppStanza::Error two passes only in the thorough tier (185 s, 4.6 GB); quick tier: first half',
+             'FastToken (QDateTime attribute) and Sasl2::UserAgent (QUuid): the vocabularies of Success / Authenticate do not contain <token/> / <user-agent/>',
+             'QXmppMessage, QXmppPresence, QXmppDataForm, Jingle, PubSub events; the dispatch through QXmppClient / QXmppOutgoingClient; text-level well-formedness and resource use (Qt); trees deeper than 3 levels, more than 3 children, strings longer than 3 free units',
+             'sibling order is significant in the tree comparison (stricter than the property); no parser needed order-insensitive comparison'],
 )
